@@ -164,6 +164,9 @@ class FileSystemController:
         dataLen = len(content)
 
         requiredSectorLength, usageOfLastSector = _computeRequiredSlots(dataLen, 255)
+        if dataLen == 0:
+            # an empty file still owns one block : one sector holding no byte
+            requiredSectorLength, usageOfLastSector = 1, 0
         requiredBlockLength, usageOfLastBlock = _computeRequiredSlots(
             requiredSectorLength, 8
         )
@@ -178,7 +181,7 @@ class FileSystemController:
         currentBlock = 0
         currentSector = 0
         lastBlockIndex = requiredBlockLength - 1
-        for currentSliceIndex in range(0, dataLen, 255):
+        for currentSliceIndex in range(0, max(dataLen, 1), 255):
             # for each sector to write
             if currentSector == 0:
                 # if sector counter is 0 : find track/first sector of block
